@@ -535,6 +535,14 @@ func (in *Interp) fmtInt(v *Term, signed bool) Str {
 	kind := "uint"
 	if signed {
 		kind = "int"
+		// a value known to be non-negative has the same text under both conversions: share the
+		// digits so that signed/unsigned formatting of one term yields identical byte terms
+		if ok, dec := in.ex.foldByRange(Bin("bvsle", C(64, 0), v)); dec && ok {
+			kind = "uint"
+			signed = false
+		}
+	} else if ok, dec := in.ex.foldByRange(Bin("bvsle", C(64, 0), v)); !(dec && ok) {
+		kind = "uint-wide" // may exceed MaxInt64: never shared with the signed rendering
 	}
 	for _, m := range in.fmtMemo {
 		if m.kind == kind && m.key == key {
@@ -561,17 +569,25 @@ func (in *Interp) fmtInt(v *Term, signed bool) Str {
 	}
 	// digits are auxiliary variables defined by  mag == sum d_k * 10^k,  '0' <= d_k <= '9'
 	// (exists and is unique for every mag with nd digits, so the path condition is not strengthened)
-	sum := C(64, 0)
+	// the defining equation is stated at the narrowest width that holds nd decimal digits
+	// (mag < 10^nd is in the path condition, so truncation loses nothing)
+	ew := 64
+	if nd <= 4 {
+		ew = 16
+	} else if nd <= 9 {
+		ew = 32
+	}
+	sum := C(ew, 0)
 	digs := make([]*Term, nd)
 	for k := nd - 1; k >= 0; k-- {
 		d := e.freshAux(8, "dig")
 		e.addPC(Bin("bvule", C(8, '0'), d))
 		e.addPC(Bin("bvule", d, C(8, '9')))
 		digs[k] = d
-		sum = Bin("bvadd", sum, Bin("bvmul", Zext(Bin("bvsub", d, C(8, '0')), 64), C(64, pow10[k])))
+		sum = Bin("bvadd", sum, Bin("bvmul", Zext(Bin("bvsub", d, C(8, '0')), ew), C(ew, pow10[k])))
 		out = append(out, d)
 	}
-	e.addPC(Bin("=", mag, sum))
+	e.addPC(Bin("=", Trunc(mag, ew), sum))
 	r := Str{b: out}
 	in.fmtMemo = append(in.fmtMemo, fmtMemoEntry{kind, key, "", r})
 	return r
@@ -597,8 +613,16 @@ func (in *Interp) parseInt(s Str, signed bool) (*Term, bool) {
 	if signed {
 		kind = "int"
 	}
-	if k, ok := in.opaqueParse(kind, "", s); ok {
-		return k, true // strconv round-trip identity on a text produced by the formatting model
+	for _, kd := range []string{kind, "uint", "uint-wide", "int"} {
+		if k, ok := in.opaqueParse(kd, "", s); ok {
+			if kd == "uint-wide" && signed {
+				break // may not fit an int: fall through to the arithmetic model
+			}
+			if kd == "int" && !signed {
+				break
+			}
+			return k, true // strconv round-trip identity on a text produced by the formatting model
+		}
 	}
 	e := in.ex
 	b := s.b
